@@ -15,6 +15,18 @@ CHECKS = {
         note='Trusted: std::thread_local!/LocalKey semantics, rustc MIR. The dispatch on the mode inside the kernel is C05\'s obligation.'),
 }
 
+ABSINT = 'abstract interpretation of the MIR (interval x congruence x polynomial-term domain with a per-path fact store) run per cell of an exhaustive finite partition of the input space; verdict = abstract outcome set contained in the oracle\'s set'
+CHECKS['C01'] = dict(
+    category='proof', design_ref='DESIGN.md section 5 C01, Appendix A.2',
+    technique=ABSINT + '; R-FWD forwarder shape rule; R-TABLE',
+    text='For each of the 2812 (operation, operand form, integer type, scale pair) cells the MIR of the base impl is interpreted with symbolic coefficients over the full range: the returned coefficient is the polynomial 10^(m-p)x +- 10^(m-q)y at scale max(p,q); every failure edge is the overflow of one of the three permitted forms; checked variants have no panic edge. The partition is exhaustive (all 19x19 scale pairs, all 9 integer types, both positions), so this is a proof over all inputs modulo the trusted base, not a sample.',
+    note=TB + 'dev-profile semantics (release behaviour is C20).')
+CHECKS['C08'] = dict(
+    category='proof', design_ref='DESIGN.md section 5 C08, Appendix A.7',
+    technique=ABSINT + '; R-IMPLSHAPE; R-FWD-REV',
+    text='For all 361 scale pairs (Decimal x Decimal: eq, partial_cmp, cmp) and 19 scales x 9 integer types x both positions, every return path\'s path condition implies that the returned ordering / equality is the sign of 10^(m-p)x - 10^(m-q)y over the integers, including the arms where scale alignment overflows (three-way fits/below/above split of every checked multiplication); partial_cmp has no None path, cmp no panic path. Derived operators are core\'s provided methods (R-IMPLSHAPE).',
+    note=TB + 'core\'s provided PartialOrd/Ord methods; rkyv derive (thorough tier analyses the archived impls when built).')
+
 NOT_APPLICABLE = {
     'C07': 'Display/parse round trip is a value-level property of run-time digit strings across two algorithms (core::fmt and a byte parser); no structural clause that is both necessary and checkable without executing or symbolically solving; see DESIGN.md section 7.',
     'C12': 'Bit-exact float rounding of Decimal -> f64/f32 over 2^127 x 19 inputs: no sound static abstract domain in reach relates the produced bit pattern to the nearest float; see DESIGN.md section 7.',
